@@ -417,6 +417,9 @@ func (s *amlSession) observe(handle uint8, payload []byte) string {
 			outcome = "err"
 		}
 	}()
+	if os.Getenv("VERIF_AML_PRINT") != "" {
+		s.tree.PrettyPrint(os.Stderr)
+	}
 	return amlObservation(s.tree, outcome, s.bases, s.tlens)
 }
 
